@@ -552,15 +552,25 @@ impl Expression {
 
         let expr = Expression::shr(lhs.clone(), rhs.clone())?;
 
-        let mask = if rhs.bits() <= 64 {
+        // The fill is all ones shifted left by (bits - rhs); once rhs exceeds the
+        // width that subtraction would wrap, so shift by 0 and fill every bit.
+        let fill_shift = Expression::ite(
+            Expression::cmpltu(expr_const(rhs.bits() as u64, rhs.bits()), rhs.clone())?,
+            expr_const(0, rhs.bits()),
+            Expression::sub(expr_const(rhs.bits() as u64, rhs.bits()), rhs)?,
+        )?;
+
+        let mask = if fill_shift.bits() <= 64 {
             Expression::shl(
-                expr_const(0xffff_ffff_ffff_ffff, rhs.bits()),
-                Expression::sub(expr_const(rhs.bits() as u64, rhs.bits()), rhs)?,
+                expr_const(0xffff_ffff_ffff_ffff, fill_shift.bits()),
+                fill_shift,
             )?
         } else {
             Expression::shl(
-                const_(0, rhs.bits()).sub(&const_(1, rhs.bits()))?.into(),
-                Expression::sub(expr_const(rhs.bits() as u64, rhs.bits()), rhs)?,
+                const_(0, fill_shift.bits())
+                    .sub(&const_(1, fill_shift.bits()))?
+                    .into(),
+                fill_shift,
             )?
         };
 
